@@ -33,6 +33,20 @@ func zzContains19(hay, needle []byte) bool {
 
 const zzInitDownload = "**\x18B00000000000000\r"
 const zzInitUpload = "**\x18B0100000000000000\r"
+// the remote side's cancel: ZMODEM's signal is five or more CAN bytes; lrzsz sends 8 CAN + 10 BS, trzsz 10 + 10
+func zzCancel19(cans int) []byte {
+	var b []byte
+	for i := 0; i < cans; i++ {
+		b = append(b, 0x18)
+	}
+	for i := 0; i < 10; i++ {
+		b = append(b, 8)
+	}
+	return b
+}
+
+var zzFiveCAN19 = []byte{0x18, 0x18, 0x18, 0x18, 0x18}
+
 const zzFinish = "**\x18B0800000000022d"
 
 func zzH_C19_session() {
@@ -81,7 +95,7 @@ func zzH_C19_session() {
 		case 1:
 			feed([]byte(zzFinish))
 		case 2:
-			feed(zmodemCancelFullSequence)
+			feed(zzCancel19(8 + 2*verifNondetRange(0, 1))) // lrzsz's or trzsz's form
 		case 3:
 			verifHelperExit(verifNondetRange(0, 1))
 		case 4:
@@ -113,10 +127,10 @@ func zzH_C19_session() {
 	verifAssert(st != 1, "helper process left running")
 	if st >= 2 && !z.serverFinished.Load() {
 		// the helper is gone while the remote side has not finished: it must be told to give up, whatever the exit code
-		verifAssert(zzContains19(srv.data, zmodemCancelFullSequence), "helper exited but the waiting remote side was not sent the cancel sequence")
+		verifAssert(zzContains19(srv.data, zzFiveCAN19), "helper exited but the waiting remote side was not sent the cancel sequence")
 	}
 	if z.errorOccurred.Load() {
-		verifAssert(zzContains19(srv.data, zmodemCancelFullSequence), "abnormal end without the cancel sequence to the remote side")
+		verifAssert(zzContains19(srv.data, zzFiveCAN19), "abnormal end without the cancel sequence to the remote side")
 		verifReach("aborted")
 	} else {
 		verifReach("ended")
@@ -137,7 +151,9 @@ func zzH_C19_veto() {
 	}
 	veto := verifNondetRange(0, 2)
 	if veto == 1 {
-		buf = append(buf, zmodemCancelSubSequence...)
+		for i := verifNondetRange(5, 10); i > 0; i-- {
+			buf = append(buf, 0x18)
+		}
 	} else if veto == 2 {
 		buf = append(buf, "rz: cannot open /dev/tty"...)
 	}
